@@ -217,7 +217,7 @@ def examine_circuit_sweep(ctx, rng, n):
         circuit = circgen.impl_circuit(case)
         nodes = sorted({x for c in case['components'] for x in c['nodes']})
         a, b = rng.sample(nodes, 2) if len(nodes) >= 2 else (nodes[0], nodes[0])
-        ws = [0.0, 0.5, 3.0, 40.0]
+        ws = [0.0, 0.5, 3.0, 3.0 + 2.0 ** -12, 3.0 + 2.0 ** -11, 40.0, 40.0 - 2.0 ** -11]     # also frequencies closer than 1e-3 within one sweep
         try:
             got = np.asarray(cimp.open_circuit_impedance(circuit, a, b, np.array(ws)), dtype=complex)
         except Exception as e:  # noqa: BLE001
